@@ -40,19 +40,18 @@ class WeightedModulus(checksum.Algorithm):
     reverse: ClassVar[bool] = True
     weights: ClassVar[list[int]]
 
-    def __init__(self) -> None:
-        self.weighted_sum: int = 0
-        self.remainder: int = 0
-
     def compute(self, components: list[str]) -> str:
+        return self.compute_with_remainder(components)[0]
+
+    def compute_with_remainder(self, components: list[str]) -> tuple[str, int]:
         [account_code] = components
         digits = self.get_digits(self.adjust_input(account_code))
-        self.remainder = self.compute_remainder(self.compute_weighted_sum(digits))
+        remainder = self.compute_remainder(self.compute_weighted_sum(digits))
         if self.minuend is None:  # noqa: SIM108
-            checksum = self.remainder
+            checksum = remainder
         else:
-            checksum = self.minuend - self.remainder
-        return str(self.reconcile(checksum))
+            checksum = self.minuend - remainder
+        return str(self.reconcile(checksum, remainder)), remainder
 
     def adjust_input(self, account_code: str) -> str:
         return account_code
@@ -83,7 +82,7 @@ class WeightedModulus(checksum.Algorithm):
     def compute_remainder(self, number: int) -> int:
         return number % self.modulus
 
-    def reconcile(self, checksum: int) -> int:
+    def reconcile(self, checksum: int, remainder: int) -> int:
         return 0 if checksum >= 10 else checksum
 
     def validate(self, components: list[str], expected: str) -> bool:
@@ -126,11 +125,11 @@ class Algorithm02(WeightedMod11):
     positions: ClassVar[Positions] = Positions(start=1, end=9, check_digit=10)
     weights: ClassVar[list[int]] = [2, 3, 4, 5, 6, 7, 8, 9]
 
-    def reconcile(self, checksum: int) -> int:
-        if self.remainder == 0:
+    def reconcile(self, checksum: int, remainder: int) -> int:
+        if remainder == 0:
             return 0
-        if self.remainder == 1:
-            raise InvalidBBANChecksum(f"Invalid remaidner: {self.remainder}")
+        if remainder == 1:
+            raise InvalidBBANChecksum(f"Invalid remaidner: {remainder}")
         return checksum
 
 
@@ -205,10 +204,10 @@ class Algorithm10(Algorithm06):
 class Algorithm11(Algorithm10):
     name = "11"
 
-    def reconcile(self, checksum: int) -> int:
+    def reconcile(self, checksum: int, remainder: int) -> int:
         if checksum == 10:
             return 9
-        return super().reconcile(checksum)
+        return super().reconcile(checksum, remainder)
 
 
 @register
@@ -240,9 +239,9 @@ class Algorithm16(Algorithm06):
 
     def validate(self, components: list[str], expected: str) -> bool:
         [account_code] = components
-        check_digit = self.compute(components)
+        check_digit, remainder = self.compute_with_remainder(components)
         check_digit_index = self.positions.check_digit - 1
-        if self.remainder == 1 and account_code[check_digit_index - 1] == account_code[check_digit_index]:
+        if remainder == 1 and account_code[check_digit_index - 1] == account_code[check_digit_index]:
             return True
         return check_digit == account_code[check_digit_index]
 
@@ -336,7 +335,8 @@ class Algorithm25(WeightedMod11):
     def validate(self, components: list[str], expected) -> bool:
         result = super().validate(components, expected)
         [account_code] = components
-        if self.remainder == 1 and account_code[1] not in {"8", "9"}:
+        _, remainder = self.compute_with_remainder(components)
+        if remainder == 1 and account_code[1] not in {"8", "9"}:
             return False
         return result
 
